@@ -1,9 +1,17 @@
 import H2T.Lemmas.FitsBlock
+import H2T.Lemmas.MarksTree
 
 /-! # C14 — every id with visible content yields one fragment marker at its content
 
-Status: **partial** — proved: recording a marker adds exactly one marker element to the pending word of the
-current block and nothing else; markers have no width (so they can never change wrapping or the text); the hard
+Status: **partial** — proved for every input of the model: the wrap layer conserves markers exactly
+(`wrap_layer_keeps_markers`: `add_text` in every white-space mode and with or without overflow, then `into_lines`,
+emits exactly the recorded markers, in order — this is what the two `fix:` commits repaired; before them the
+theorem was false); every operation of a sub-renderer conserves them (`block_layer_keeps_markers`); a table-free
+rendering returns a sub-sequence of the tree's fragment nodes in document order (`markers_in_document_order`: at
+most once each, nothing invented or reordered), and all of them up to a trailing run with no text line after it
+when no prefixed sub-renderer is involved (`markers_exactly_once_flat`); the only place a marker is dropped is
+`into_lines` of a sub-renderer with markers still pending (`only_pending_markers_are_lost`).  Also: recording a
+marker adds exactly one marker element to the pending word of the current block and nothing else; markers have no width (so they can never change wrapping or the text); the hard
 wrap keeps the markers of the word it splits (this is what the `fix:` commit "keep fragment markers when a word
 is hard-wrapped" repaired: before it the conservation lemma below was false); markers that reach the end of a
 block are handed over to the next line.  Exactly-once and position over whole documents are decided by
@@ -64,5 +72,60 @@ example :
     let b0 : WB := ({ width := 5 } : WB).addElement (.frag (strCh "x"))
     ((b0.addText .normal [] [] (strCh "hhhhhhhh b")).toOption.bind fun b => b.finish.toOption.map fun ls => (ls.map frags).flatten.length)
       = some 1 := by decide +kernel
+
+/-! ## exact conservation (all inputs of the model) -/
+
+/-- **the wrap layer keeps every marker**: whatever text is added after recording markers — any white-space mode, any
+    width, with or without `allow_width_overflow`, wrapped, hard-wrapped or overflowing — the block still holds exactly
+    the recorded markers in order, and finishing it emits exactly those (the pending word being empty or holding text,
+    as the sub-renderer guarantees before it calls `into_lines`) -/
+theorem wrap_layer_keeps_markers (b b' : WB) (m : WS) (mt wt : Tag) (cs : List Ch) (ls : List TLine) (hl : b.LineOk)
+    (h : b.addText m mt wt cs = .ok b') (hw : b'.word.noContent = true → b'.word = []) (hf : b'.finish = .ok ls) :
+    ls.flatMap marks = b.marks :=
+  (finish_marks b' ls (addText_marks b b' m mt wt cs hl h).2 hw hf).trans (addText_marks b b' m mt wt cs hl h).1
+
+/-- a freshly created block satisfies the invariant the theorem asks for, and recording a marker keeps it -/
+theorem fresh_block_ok (w : Nat) (pad ov : Bool) : ({ width := w, padBlocks := pad, overflow := ov } : WB).LineOk := fun _ => Or.inl rfl
+theorem recording_keeps_invariant (b : WB) (n : List Ch) (h : b.LineOk) : (b.addElement (.frag n)).LineOk := h
+
+/-- **every sub-renderer operation keeps every marker**: flushing, starting a block, a blank line, a forced line break and
+    inline text leave the markers held (finished lines, pending list, wrapping block — in that order) unchanged;
+    recording appends exactly the new marker -/
+theorem block_layer_keeps_markers (s s' : SubR) (cfg : Cfg) (hm : s.MOk) :
+    (s.flushWrapping = .ok s' → s'.marks = s.marks) ∧ (s.startBlock = .ok s' → s'.marks = s.marks) ∧
+    (s.addEmptyLine = .ok s' → s'.marks = s.marks) ∧ (s.newLineHard = .ok s' → s'.marks = s.marks) ∧
+    (∀ x f, s.addInlineText cfg x f = .ok s' → s'.marks = s.marks) ∧
+    (∀ n, (s.recordFrag cfg n).marks = s.marks ++ [n]) :=
+  ⟨fun h => (flushWrapping_marks s s' hm h).1, fun h => (startBlock_marks s s' hm h).1, fun h => (addEmptyLine_marks s s' hm h).1,
+   fun h => (newLineHard_marks s s' hm h).1, fun x f h => (addInlineText_marks s s' cfg x f hm h).1, fun n => (recordFrag_marks s cfg n hm).1⟩
+
+/-- **the only loss**: `into_lines` returns every marker the sub-renderer holds except those still pending after its last
+    flush (no text line followed them) -/
+theorem only_pending_markers_are_lost (s : SubR) (ls : List RLine) (hm : s.MOk) (h : s.intoLines = .ok ls) :
+    ls.flatMap rmarks ++ s.lostMarks = s.marks := intoLines_marks s ls hm h
+
+/-- **markers appear in document order, at most once** (table-free trees, every decorator, width and option): the markers
+    of the returned lines, read line by line, are a sub-sequence of the tree's fragment nodes in document order -/
+theorem markers_in_document_order (cfg : Cfg) (d : Deco) (w : Nat) (tree : RNode) (ls : List RLine) (hn : noTable tree = true)
+    (h : renderTree cfg d w tree = .ok ls) : (ls.flatMap rmarks).Sublist (nodeFrags tree) := by
+  obtain ⟨lost, h1, _⟩ := renderTree_marks cfg d w tree ls hn h
+  exact (List.sublist_append_left _ _).trans h1
+
+/-- **exactly once** when no prefixed sub-renderer is involved (inline content, paragraphs, divs, dl/dt, pre): the returned
+    lines carry every fragment node of the tree exactly once, in document order, except a trailing run that no text line
+    followed -/
+theorem markers_exactly_once_flat (cfg : Cfg) (d : Deco) (w : Nat) (tree : RNode) (ls : List RLine) (hf : flatTree tree = true)
+    (h : renderTree cfg d w tree = .ok ls) : ∃ lost, ls.flatMap rmarks ++ lost = nodeFrags tree := by
+  obtain ⟨lost, _, h2⟩ := renderTree_marks cfg d w tree ls (flatTree_noTable tree hf) h
+  exact ⟨lost, h2 hf⟩
+
+/-! non-vacuity of the exact theorems: the two repaired witnesses satisfy the hypotheses and keep their marker -/
+example :
+    let b0 : WB := ({ width := 1, overflow := true } : WB)
+    (b0.LineOk) ∧
+    (((b0.addText .normal [] [] [⟨0x5b57, 2, false, false⟩]).toOption.bind fun b =>
+        ((b.addElement (.frag (strCh "x"))).forceFlush.addText .normal [] [] (strCh "t")).toOption.bind fun b2 =>
+        b2.finish.toOption.map fun ls => ls.flatMap marks) = some [strCh "x"]) :=
+  ⟨fun _ => Or.inl rfl, by decide +kernel⟩
 
 end H2T.C14
